@@ -221,6 +221,22 @@ func (p *process) SpawnMeta(behavior gen.MetaBehavior, options gen.MetaOptions) 
 	p.node.aliases.Store(m.id, p)
 	go m.start()
 
+	if p.isAlive() == false {
+		// a meta process can be spawned by another meta process, that is, concurrently
+		// with the termination of this process, which may have stopped its meta
+		// processes before this one was registered. stop it the same way
+		qm := gen.TakeMailboxMessage()
+		qm.From = p.pid
+		qm.Type = gen.MailboxMessageTypeExit
+		qm.Message = gen.ErrProcessTerminated
+
+		p.node.aliases.Delete(m.id)
+		if ok := m.system.Push(qm); ok == false {
+			p.log.Error("unable to stop meta process %s. mailbox is full", m.id)
+		}
+		m.handle()
+	}
+
 	return m.id, nil
 }
 
